@@ -100,6 +100,47 @@ def modelAlg (l1 l2 : Layout) (v w : List Int) : String :=
   let cp := toList n (staticCopy l1 l2 p1 p2)
   s!"fill={showComma fill} gen={showComma gen} fe1={rep (2 * m1) (showComma fe1)} fe2={rep (4 * m1 * m2) (showComma fe2)} fe3={rep (8 * m1 * m2) (showComma fe3)} tr1={rep (2 * m1 * dm) (showComma tr1)} tr2={rep (4 * m1 * m2 * dm) (showComma tr2)} min={p1 mn} max={p1 mx} minat={mn} maxat={mx} eq={rep (4 * m1 * m2) (b01 eq)} cp={rep (2 * m1 * m2) (showComma cp)}"
 
+/-- three bars -/
+def splitBar3 (ws : List String) : List String × List String × List String :=
+  let (a, r) := splitBar ws; let (b, c) := splitBar r; (a, b, c)
+
+/-- `alg3`: three layouts, equal types (= equal layout NAMES) for any subset, aliased arguments; counts = number of overload /
+    model / aliasing combinations the harness runs (see harness alg3_h) -/
+def alg3Counts (n : Nat) (id1 id2 id3 s12 s13 s23 : Bool) : Nat × Nat × Nat × Nat × Bool :=
+  let m1 := if n ≥ 2 ∧ id1 then 2 else 1
+  let m2 := if n ≥ 2 ∧ id2 then 2 else 1
+  let m3 := if n ≥ 2 ∧ id3 then 2 else 1
+  let kd := if n ≥ 2 ∧ id3 then 3 else 1
+  let k1 := 2 * m1; let k2 := 2 * m2; let k3 := 2 * m3
+  let tr2 := k1 * k2 * kd + (if s13 then k1 * k2 else 0) + (if s23 then k1 * k2 else 0)
+  let trs := if s12 then 4 * m1 * kd + (if s13 then 4 * m1 else 0) else 0
+  (tr2, trs, k1 * k2 * k3, m1, s12 && s13)
+
+def orDash (k : Nat) (x : String) : String := if k = 0 then "-" else rep k x
+
+def modelAlg3 (n1 n2 n3 : String) (l1 l2 l3 : Layout) (v w u : List Int) : String :=
+  let n := l1.length
+  let p1 := fn v; let p2 := fn w; let p3 := fn u
+  let (ctr2, ctrs, cfe3, m1, self) := alg3Counts n (l1 == identity n) (l2 == identity n) (l3 == identity n) (n1 == n2) (n1 == n3) (n2 == n3)
+  let f : Int → Int → Int := fun a b => a * 16 + b
+  let zero : Nat → Int := fun _ => 0
+  -- by C05_transform2_aliased_eq_fresh the aliased runs have the same colours; the model computes each variant with its own definition
+  let tr2 := toList n (staticTransform2 l1 l2 l3 p1 p2 zero f)
+  let okAlias1 := n1 != n3 || toList n (staticTransform2Acc1 l1 l2 p1 p2 f) == tr2
+  let okAlias2 := n2 != n3 || toList n (staticTransform2Acc2 l1 l2 p1 p2 f) == tr2
+  let trs := toList n (staticTransform2 l1 l1 l3 p1 p1 zero f)
+  let okSelf := !self || toList n (staticTransform2Self l1 p1 f) == trs
+  let fe3 := (visitTriples l1 l2 l3).map (fun (a, b, c) => (p1 a * 1000 + p2 b) * 1000 + p3 c)
+  let fes2 := (visitPairs l1 l1).map (fun (a, b) => p1 a * 1000 + p1 b)
+  let fes3 := (visitTriples l1 l1 l1).map (fun (a, b, c) => (p1 a * 1000 + p1 b) * 1000 + p1 c)
+  let cps := toList n (staticCopy l1 l1 p1 p1)
+  let fillp := toList n (staticFill l1 p1 7)
+  let genp := toList n (staticGenerate l1 p1 (fun s => 100 + (s : Int)))
+  let sk (k : Nat) := if self then k else 0
+  let pk := if self ∧ m1 = 2 then 2 else 0
+  if !(okAlias1 && okAlias2 && okSelf) then "model-aliased-variants-differ" else
+  s!"tr2={rep ctr2 (showComma tr2)} trs={orDash ctrs (showComma trs)} fe3={rep cfe3 (showComma fe3)} fes2={orDash (sk (4 * m1)) (showComma fes2)} fes3={orDash (sk (8 * m1)) (showComma fes3)} eqs={orDash (sk (4 * m1)) (b01 (staticEqual l1 l1 p1 p1))} cps={orDash (sk (2 * m1)) (showComma cps)} fillp={orDash pk (showComma fillp)} genp={orDash pk (showComma genp)}"
+
 def modelSpare (t dlName sm slName : String) (dl sl : Layout) (raw : Nat) (v : List Int) : String :=
   match spareSet t with
   | none => "bad-op"
@@ -136,6 +177,13 @@ def model (line : String) : String :=
     | some l1, some l2, some v, some w =>
       if v.length ≠ l1.length ∨ w.length ≠ l2.length ∨ l1.length ≠ l2.length then "bad-op" else modelAlg l1 l2 v w
     | _, _, _, _ => "bad-op"
+  | "alg3" :: _ :: _ :: n1 :: n2 :: n3 :: rest =>
+    let (a, b, c) := splitBar3 rest
+    match layoutOf n1, layoutOf n2, layoutOf n3, ints a, ints b, ints c with
+    | some l1, some l2, some l3, some v, some w, some u =>
+      if v.length ≠ l1.length ∨ w.length ≠ l1.length ∨ u.length ≠ l1.length ∨ l2.length ≠ l1.length ∨ l3.length ≠ l1.length then "bad-op"
+      else modelAlg3 n1 n2 n3 l1 l2 l3 v w u
+    | _, _, _, _, _, _ => "bad-op"
   | "spare" :: _ :: t :: dl :: sm :: sl :: raw :: rest =>
     match layoutOf dl, layoutOf sl, raw.toNat?, ints rest with
     | some dlm, some slm, some raw, some v =>
@@ -228,6 +276,36 @@ def judgeAlg (m1 m2 : Layout) (v w : List Int) (ows : List String) : String :=
     | _, _, _, _, _, _ => fail "shape"
   | _, _, _, _, _, _, _ => fail "shape"
 
+/-- Spec for `alg3`: EVERY run (whatever the three layouts, constness, pixel models, aliasing) pairs by colour:
+    transform result colour c = f(src1[c], src2[c]) in the destination's memory order; each for_each call gets one colour of all
+    three bases and every colour occurs once; x == x; copying x to itself keeps it; fill / generate reach every channel -/
+def judgeAlg3 (n1 n2 n3 : String) (m1 m2 m3 : Layout) (v w u : List Int) (ows : List String) : String :=
+  let n := m1.length
+  let a (s : Nat) : Int := v.getD (m1.phys s) 0
+  let b (s : Nat) : Int := w.getD (m2.phys s) 0
+  let c (s : Nat) : Int := u.getD (m3.phys s) 0
+  let sems := List.range n
+  let bySem (d : List Int) (m : Layout) (f : Nat → Int) : Bool := d.length == n && sems.all (fun s => d.getD (m.phys s) 0 == f s)
+  let (ctr2, ctrs, cfe3, k1, self) := alg3Counts n (m1 == identity n) (m2 == identity n) (m3 == identity n) (n1 == n2) (n1 == n3) (n2 == n3)
+  let sk (k : Nat) := if self then k else 0
+  let pk := if self ∧ k1 = 2 then 2 else 0
+  -- a field with k results, each satisfying ok; k = 0: the field must be "-"
+  let every (key : String) (k : Nat) (ok : List Int → Bool) : Bool :=
+    if k = 0 then field ows key == some "-" else
+    match multiList ows key with | some xs => xs.length == k && xs.all ok | none => false
+  let eqOk := if sk (4 * k1) = 0 then field ows "eqs" == some "-" else
+    match multiField ows "eqs" with | some xs => xs.length == 4 * k1 && xs.all (· == "1") | none => false
+  firstFail [
+    (every "tr2" ctr2 (fun x => bySem x m3 (fun s => a s * 16 + b s)), "transform2-by-colour"),
+    (every "trs" ctrs (fun x => bySem x m3 (fun s => a s * 16 + a s)), "transform2-same-source-by-colour"),
+    (every "fe3" cfe3 (fun x => sameMultiset x (sems.map (fun s => (a s * 1000 + b s) * 1000 + c s))), "for_each-triples-by-colour"),
+    (every "fes2" (sk (4 * k1)) (fun x => sameMultiset x (sems.map (fun s => a s * 1000 + a s))), "for_each-pairs-by-colour"),
+    (every "fes3" (sk (8 * k1)) (fun x => sameMultiset x (sems.map (fun s => (a s * 1000 + a s) * 1000 + a s))), "for_each-triples-by-colour"),
+    (eqOk, "equal-by-colour"),
+    (every "cps" (sk (2 * k1)) (fun x => x == v), "copy-by-colour"),
+    (every "fillp" pk (fun x => x == List.replicate n 7), "fill"),
+    (every "genp" pk (fun x => bySem x m1 (fun s => 100 + (s : Int))), "generate-each-channel-once")]
+
 def judge (op obs : String) : String :=
   if obs.startsWith "ub:" ∨ obs.startsWith "assert:" ∨ obs.startsWith "crash" ∨ obs.startsWith "timeout" then
     fail ("memory-safety " ++ (obs.take 60).toString) else
@@ -255,6 +333,13 @@ def judge (op obs : String) : String :=
                    flag "N0" "0", flag "N1" "0", flag "D" "0", flag "DN" "1"]
       | none => fail "shape"
     | _, _, _ => fail "bad-op"
+  | "alg3" :: _ :: _ :: n1 :: n2 :: n3 :: rest =>
+    let (a, b, c) := splitBar3 rest
+    match specOf n1, specOf n2, specOf n3, ints a, ints b, ints c with
+    | some m1, some m2, some m3, some v, some w, some u =>
+      if v.length ≠ m1.length ∨ w.length ≠ m1.length ∨ u.length ≠ m1.length ∨ m2.length ≠ m1.length ∨ m3.length ≠ m1.length then fail "bad-op"
+      else judgeAlg3 n1 n2 n3 m1 m2 m3 v w u ows
+    | _, _, _, _, _, _ => fail "bad-op"
   | "alg" :: _ :: _ :: l1 :: l2 :: rest =>
     let (a, b) := splitBar rest
     match specOf l1, specOf l2, ints a, ints b with
